@@ -51,7 +51,7 @@ def kani(P, u, prop):
     arms = []
     for v in P.variants:
         d = desig(v, "deref")
-        arms.append("%s => %s as *const %s," % (P.pat(v, "x"), ("*x%d" if is_ref(d) else "x%d") % d.idx, tgt))
+        arms.append("%s => %s as *const %s," % (P.pat(v, "x"), ("&**x%d" if is_ref(d) else "x%d") % d.idx, tgt))
     u.kani_oracle.append("/// address of the storage &*x must point at\npub fn deref_addr(x: &TI) -> *const %s {\n    match x {\n        %s\n    }\n}\n" % (tgt, "\n        ".join(arms)))
     u.kani_harness.append("""
 #[kani::proof]
@@ -64,7 +64,31 @@ pub fn deref_h() {
 """ % tgt)
     u.kani_obls["deref_h"] = ("%s/%s/Deref::deref/contract" % (prop, P.pid), "&*x as *const _ == address of the designated field of the live variant")
     u.replay.append('{ let x = oracle::mk(s); let p = (&*x) as *const _ as *const %s; chk(out, "&*x is the designated field", p == oracle::deref_addr(&x), true); }' % tgt)
-    if "DerefMut" in P.focus:
+    if "DerefMut" in P.focus and any(is_ref(f) for v in P.variants for f in v.fields):
+        # reference-typed fields cannot be copied into an expected value: address + write-through only
+        marms = []
+        for v in P.variants:
+            d = desig(v, "deref_mut")
+            marms.append("%s => %s as *const %s," % (P.pat(v, "x"), ("&**x%d" if is_ref(d) else "x%d") % d.idx, tgt))
+        u.kani_oracle.append("pub fn deref_mut_addr(x: &TI) -> *const %s {\n    match x {\n        %s\n    }\n}\n" % (tgt, "\n        ".join(marms)))
+        u.kani_harness.append("""
+#[kani::proof]
+pub fn deref_mut_h() {
+    let mut x = oracle::mk(&mut KaniSrc);
+    let v: %s = <%s as Val>::draw(&mut KaniSrc);
+    let q = oracle::deref_mut_addr(&x);
+    let p = (&mut *x) as *mut _ as *const %s;
+    assert!(p == q, "contract: &mut *x has the address of the DerefMut-designated storage (the referent for a reference field)");
+    *x = v;
+    assert!(oracle::deref_mut_addr(&x) == q && unsafe { *q } == v, "contract: writing through &mut *x reaches that storage");
+    kani::cover!(true);
+}
+""" % (tgt, tgt, tgt))
+        u.kani_obls["deref_mut_h"] = ("%s/%s/DerefMut::deref_mut/contract" % (prop, P.pid), "&mut *x is the designated storage; *x = v writes it")
+        u.replay.append('{ let mut x = oracle::mk(s); let v: %s = <%s as Val>::draw(s); let q = oracle::deref_mut_addr(&x);\n'
+                        '      let p = (&mut *x) as *mut _ as *const %s; chk(out, "&mut *x is the designated storage", p == q, true); *x = v;\n'
+                        '      chk(out, "*x = v reaches it", unsafe { *q } == v, true); }' % (tgt, tgt, tgt))
+    elif "DerefMut" in P.focus:
         marms, earms, sarms = [], [], []
         for v in P.variants:
             d = desig(v, "deref_mut")
